@@ -11,6 +11,7 @@ package c14
 
 import (
 	"bufio"
+	"crypto/elliptic"
 	"crypto/sha256"
 	"encoding/hex"
 	"encoding/json"
@@ -597,10 +598,67 @@ func restOfRound(t *rapid.T, tr *transcript) {
 		curve4q.KeyGen(&pk2, &sk2)
 		ok := curve4q.Shared(&sh, &sk, &pk2)
 		tr.emit("curve4q.KeyGen+Shared", c1+c2, [][]byte{kb, k2b}, [][]byte{pk[:], sh[:], {b2b(ok)}})
+		// decoding of structured encodings: coordinate components 0, ±1, ±2, p, small and near p, either sign bit
+		comp := func(label string) []byte {
+			b := make([]byte, 16)
+			switch rapid.IntRange(0, 7).Draw(t, label) {
+			case 0:
+			case 1:
+				b[0] = 1
+			case 2: // p - 1
+				for i := range b {
+					b[i] = 0xff
+				}
+				b[0], b[15] = 0xfe, 0x7f
+			case 3: // p - 2
+				for i := range b {
+					b[i] = 0xff
+				}
+				b[0], b[15] = 0xfd, 0x7f
+			case 4: // p itself
+				for i := range b {
+					b[i] = 0xff
+				}
+				b[15] = 0x7f
+			case 5:
+				b[0] = byte(rapid.IntRange(2, 255).Draw(t, label+"s"))
+			default:
+				vlib.FillRandom(t, b, label+"r")
+				b[15] &= 0x7f
+			}
+			return b
+		}
+		var enc [32]byte
+		copy(enc[:16], comp("qya"))
+		copy(enc[16:], comp("qyb"))
+		if rapid.Bool().Draw(t, "qsign") {
+			enc[31] |= 0x80
+		}
+		in := enc
+		var D fourq.Point
+		okD := D.Unmarshal(&in)
+		var od [32]byte
+		if okD {
+			D.Marshal(&od)
+		}
+		var shD curve4q.Key
+		pubD := curve4q.Key(enc)
+		okS := curve4q.Shared(&shD, &sk, &pubD)
+		tr.emit("fourq.Unmarshal+curve4q.Shared(structured)", "structured-encoding", [][]byte{kb, enc[:]}, [][]byte{{b2b(okD), b2b(okS)}, od[:], shD[:]})
 	}
 	{
 		kb, c1 := drawElt(t, 48, nil, "pk")
 		k2b, c2 := drawElt(t, 48, nil, "pk2")
+		// scalars relative to the group order (n-1, n, n+1, 2n, even / odd values above n, all ones): the
+		// optimised back-end reduces and recodes scalars itself, the portable one delegates to crypto/elliptic
+		if rapid.IntRange(0, 2).Draw(t, "pnear") == 0 {
+			v, cls := vlib.ScalarNear(t, elliptic.P384().Params().N, 384, "pnv")
+			kb, c1 = v.FillBytes(make([]byte, 48)), "near-order:"+cls
+		}
+		if rapid.IntRange(0, 3).Draw(t, "pnear2") == 0 {
+			v, cls := vlib.ScalarNear(t, elliptic.P384().Params().N, 384, "pnv2")
+			k2b, c2 = v.FillBytes(make([]byte, 48)), "near-order:"+cls
+		}
 		c := p384.P384()
 		x1, y1 := c.ScalarBaseMult(kb)
 		x2, y2 := c.ScalarMult(x1, y1, k2b)
